@@ -211,6 +211,11 @@ def check_lossy_only(ctx, prog, fn, name):
 def _strip_str(prog, fn, os_, depth=0):
     out = []
     for o in os_:
+        if o.kind == "agg" and depth < 5 and o.data.get("adt") in ("core::option::Option", "core::result::Result"):
+            if o.data.get("variant") in ("Some", "Ok") and o.data.get("ops"):
+                out.extend(_strip_str(prog, fn, leaf_origins(prog, fn, o.data["ops"][0], at=o.block, terminal_only=True), depth + 1))
+            continue        # None / Err carry no decoded text
+
         if o.kind == "call" and depth < 5 and (o.data.get("callee") or "").rsplit("::", 1)[-1] in ("to_string", "into_owned", "to_owned", "into", "from", "clone") and o.data.get("args"):
             out.extend(_strip_str(prog, fn, leaf_origins(prog, fn, o.data["args"][0], at=o.block, terminal_only=True), depth + 1))
         else:
